@@ -1,0 +1,71 @@
+//go:build verif
+
+package crypto
+
+// Machine-checked contracts (govc, see /verif/DESIGN.md). Comment-only file.
+
+//@ fileprops C33
+
+// The layer-by-layer verification itself is the SDK's VerifyRequestWithBufferN3 (external,
+// trusted to accept only when every layer carries valid signatures over its body, meta header
+// and the previous layer). What the node adds - and what is proved here - is when that
+// verification may be skipped, and that its verdict is passed on unchanged.
+
+//@ ghost pred chainVerified() bool
+//@ ghost pred peerTrusted() bool
+//@ ghost pred hasVerifyHeader() bool
+//@ ghost pred metaTTL() uint32
+//@ ghost pred hasMeta() bool
+
+//@ callrule c33_sdk_verdict in verifyRequestSignatures*
+//@   callee crypto.VerifyRequestWithBufferN3*
+//@   defines err == nil ==> chainVerified()
+
+//@ func verifyRequestSignatures
+//@   ensures [nil_only_if_sdk_accepted_every_layer] err == nil ==> chainVerified()
+//@   defines err == nil ==> chainVerified()
+
+//@ callrule c33_trusted_peer in requestNeedsSignature*
+//@   callee peerauth.IsTrustedPeer
+//@   defines result == peerTrusted()
+//@ callrule c33_verify_header in requestNeedsSignature*
+//@   callee *.GetVerifyHeader
+//@   defines (result != nil) == hasVerifyHeader()
+//@ callrule c33_meta_header in requestNeedsSignature*
+//@   callee *.GetMetaHeader
+//@   defines (result != nil) == hasMeta()
+//@ callrule c33_ttl in requestNeedsSignature*
+//@   callee *RequestMetaHeader).GetTtl
+//@   defines result == metaTTL()
+
+// The only exemption: no verification header at all, TTL exactly one, authenticated peer.
+//@ func requestNeedsSignature
+//@   ensures [exempt_only_one_hop_from_authenticated_peer] !result ==> !hasVerifyHeader() && hasMeta() && metaTTL() == 1 && peerTrusted()
+//@   defines !result ==> oneHopFromTrustedPeer()
+//@ ghost pred oneHopFromTrustedPeer() bool
+
+//@ func VerifyRequestSignatures
+//@   ensures [nil_only_if_every_layer_verifies] err == nil ==> chainVerified()
+//@ func VerifyRequestSignaturesWithContext
+//@   ensures [nil_only_if_verified_or_exempt] err == nil ==> chainVerified() || oneHopFromTrustedPeer()
+//@ func VerifyRequestSignaturesN3
+//@   ensures [nil_only_if_verified_or_exempt] err == nil ==> chainVerified() || oneHopFromTrustedPeer()
+
+// N3 witnesses: accepted only if the contained script run answered true without error.
+//@ ghost pred scriptRunTrue() bool
+//@ callrule c33_script_verdict in verifyN3Scripts
+//@   callee unwrap.Bool
+//@   defines res0 && err == nil ==> scriptRunTrue()
+//@ func verifyN3Scripts
+//@   ensures [nil_only_if_script_answered_true] err == nil ==> scriptRunTrue()
+//@   defines err == nil ==> scriptRunTrue()
+//@ func verifyN3ScriptsNow
+//@   ensures [nil_only_if_script_answered_true] err == nil ==> scriptRunTrue()
+//@ func verifyN3ScriptsAtEpoch
+//@   ensures [nil_only_if_script_answered_true] err == nil ==> scriptRunTrue()
+//@ func verifyN3ScriptsAtTime
+//@   ensures [nil_only_if_script_answered_true] err == nil ==> scriptRunTrue()
+
+// The author is taken from the body signature only for the four supported schemes.
+//@ func GetRequestAuthor
+//@   ensures [author_only_for_supported_scheme] err == nil ==> vh != nil && old(vh.BodySignature) != nil && (old(vh.BodySignature.Scheme) == 0 || old(vh.BodySignature.Scheme) == 1 || old(vh.BodySignature.Scheme) == 2 || old(vh.BodySignature.Scheme) == 3)
